@@ -1,0 +1,40 @@
+//go:build verif
+
+// Contracts checked by /verif/govc (comment-only file; see /verif/DESIGN.md, property C33).
+package token
+
+//@ ginv_table tokens
+//@ ginv keywordsTable := keywords != nil &&
+//@      (forall k in int(keyword_beg)+1..int(keyword_end) :: has(keywords, tokens[k]) && int(keywords[tokens[k]]) == k)
+//@
+//@ loop init#1#1
+//@   invariant keywords != nil && keyword_beg < i && i <= keyword_end
+//@   invariant forall k in int(keyword_beg)+1..int(i) :: has(keywords, tokens[k]) && int(keywords[tokens[k]]) == k
+//@   decreases int(keyword_end) - int(i)
+//@
+//@ func (Token).String
+//@   pure
+//@   ensures [spelling] 0 <= tok && tok < Token(len(tokens)) && tokens[tok] != "" ==> result == tokens[tok]
+//@   ensures [nonempty] len(result) > 0
+//@
+//@ func (Token).Precedence
+//@   pure
+//@   ensures [range] 0 <= result && result <= 5
+//@   ensures [binop-is-operator] result > 0 ==> IsOperator(op)
+//@   ensures [binop-spelled] result > 0 ==> 0 <= op && op < Token(len(tokens)) && tokens[op] != ""
+//@
+//@ func (Token).IsOperator
+//@   pure
+//@   ensures [ops] operator_beg <= tok && tok <= operator_end ==> result
+//@   ensures [extra-ops] tok == SRARROW || tok == BIDIARROW || tok == TILDE || tok == ENV ==> result
+//@   ensures [not-lit-kw] result ==> !IsLiteral(tok) && !IsKeyword(tok)
+//@
+//@ func (Token).IsKeyword
+//@   pure
+//@   ensures result == (keyword_beg < tok && tok < keyword_end)
+//@
+//@ func Lookup
+//@   pure
+//@   ensures [hit] has(keywords, ident) ==> result == keywords[ident]
+//@   ensures [miss] !has(keywords, ident) ==> result == IDENT
+//@   ensures [kw] forall k in int(keyword_beg)+1..int(keyword_end) :: ident == tokens[k] ==> int(result) == k
